@@ -22,6 +22,10 @@ RULE = (
     "position-set filters), toast_tile_for_point at the reference centre and full enumeration: corners/orientation must agree with each "
     "other and with the reference. 'deep' case = random positions at depth 9-20 through the three non-exhaustive routes. "
     "Non-trivial: every case (>= 100 tiles compared); distinct by spec."
+    " 'live' cases: tiles handed out earlier (and a half-consumed enumeration) are re-examined after the other coordinate system was us"
+    'ed through every route and after library tile filters were asked about them; enumerations advanced in lockstep / started and dropp'
+    "ed inside another's loop (bounded) must equal solo enumerations. Route cases also look up a corner and an edge midpoint of every t"
+    'ile.'
 )
 ASSUMPTIONS = ["reference TOAST subdivision (vlib/ref_toast.py) follows the documentation", "compiled extension as built; .pyx coherent with .c"]
 EXHAUSTIVE = {"quick": "all 1364 tiles to depth 5 in both coordinate systems", "thorough": "all 87380 tiles to depth 8 in both coordinate systems"}
